@@ -60,3 +60,6 @@ Qed.
 
 Lemma bytes_eqb_eq a b : bytes_eqb a b = true -> a = b.
 Proof. apply list_eqb_eq. intros x y. apply N.eqb_eq. Qed.
+
+Lemma ok_inj {E A} (a b : A) : @Ok E A a = Ok b -> a = b.
+Proof. intros H. injection H. auto. Qed.
